@@ -17,9 +17,9 @@ import (
 )
 
 type c07Mut struct {
-	name             string
-	nonce, ct, aad   []byte
-	sameAEAD         bool
+	name           string
+	nonce, ct, aad []byte
+	sameAEAD       bool
 }
 
 func c07Judge(t vt.TB, rec *stats.Recorder, c *gcmCase, open func(nonce, ct, aad []byte) ([]byte, error), m c07Mut) {
@@ -69,7 +69,9 @@ func verifProp_C07_Open() func(*rapid.T) {
 		open := func(n, ct, ad []byte) ([]byte, error) { c.dirty(); return a.Open(nil, n, ct, ad) }
 		r := gen.Rand(t, "mutseed")
 		var muts []c07Mut
-		add := func(name string, n, ct, ad []byte) { muts = append(muts, c07Mut{name: name, nonce: n, ct: ct, aad: ad}) }
+		add := func(name string, n, ct, ad []byte) {
+			muts = append(muts, c07Mut{name: name, nonce: n, ct: ct, aad: ad})
+		}
 		add("none", c.Nonce, sealed, c.AAD)
 		flip := func(b []byte, bit int) []byte {
 			o := append([]byte(nil), b...)
